@@ -31,7 +31,7 @@ def _remap(case):
 
 
 def _fallback(case):
-    kinds = [ValueError('x'), IndexError('x'), ZeroDivisionError('x'), TypeError('x')]
+    kinds = [ValueError('x'), IndexError('x'), ZeroDivisionError('x'), TypeError('x'), OverflowError('x')]
     cropper = EngineLineCropper(line_height=24, poly=0, scale=1)
 
     def boom(b, h, t):
